@@ -38,7 +38,8 @@ def run_cfg(chk, facts, cfg):
     cnt = {'add': 0, 'inherent_add': 0, 'add_assign': 0, 'fields': 0, 'queries': 0}
     from ..overrides import obligation as no_overrides
     no_overrides(chk, PID, facts, sfx, [x['path'] for x in facts.raw['adts'] if x.get('exported') and x['path'].split('::')[-1] in ('Arithmetic', 'Harmonic', 'Geometric', 'Paired', 'Unpaired', 'Stats', 'KahanSum')], 'state types (copies and merges: Clone, Add, AddAssign, Default)', traits=('Clone', 'Copy', 'Add', 'AddAssign', 'Default', 'Sum'),
-                 checkers={('Clone', 'clone_from'): __import__('sa.overrides', fromlist=['x']).clone_from_checker(chk, PID, facts, sfx)})
+                 checkers={('Clone', 'clone_from'): __import__('sa.overrides', fromlist=['x']).clone_from_checker(chk, PID, facts, sfx)},
+                 shadow_known=('add',))   # the inherent `add` of the mean states is a merge decided below (floor inherent-add)
 
     def summ(fn, names, args):
         sx = Summarizer(facts, assume_no_overflow=True)
